@@ -144,6 +144,44 @@ theorem C16_signed_doc_lookup (m : List (Bytes × JV)) (sig k : Bytes) :
     lookup k (m ++ [(kCamliSig, .str sig)]) = if kCamliSig = k then some (.str sig) else lookup k m :=
   lookup_append_single k kCamliSig (.str sig) m
 
+/-! ## the explicit `}` test of Sign is redundant, as its comment says -/
+
+/-- sign.go:171 ("This check should be redundant if the above JSON parse succeeded, but for
+explicitness..."): it IS redundant – for every input and environment `Sign` never fails with
+"json parameter lacks trailing '}'". A trimmed text that unmarshals to an object with a
+`camliSigner` member always ends in `}`. -/
+theorem C16_sign_brace_check_redundant (E : Env S) (unsigned : Bytes) :
+    E.sign unsigned ≠ .error .nobrace := by
+  unfold Env.sign Pk.JsonSign.sign
+  simp only
+  split
+  · simp
+  · rename_i m hm
+    split
+    · simp
+    · rename_i signer hs
+      split
+      · simp
+      · split
+        · simp
+        · simp
+        · split
+          · rename_i hb
+            have hne := lookup_ne_nil _ _ _ hs
+            exact absurd (trimmed_obj_last unsigned m (unmarshalMap_obj _ _ hm hne)) (by simpa using hb)
+          · split
+            · simp
+            · split
+              · rename_i e he
+                intro h
+                injection h with h
+                subst h
+                unfold stripArmor at he
+                split at he
+                · split at he <;> simp at he
+                · simp at he
+              · simp
+
 /-! ## sign, then verify -/
 
 /-- **sign-then-verify succeeds**: a document returned by `Sign` for an object that has a
@@ -174,6 +212,26 @@ theorem C16_sign_then_verify (E : Env S) (unsigned doc : Bytes) (h : E.sign unsi
   unfold Env.verify Pk.JsonSign.verify
   rw [hdoc, C16_split_signed t sig hc]
   simp only [parseSigMap_signedBS sig hp, ht, hpm, hf, hchk]
+
+/-- the guard `camliVersion` of `C16_sign_then_verify` is needed: `Sign` does not look at
+`camliVersion` (sign.go:132-222), `Verify` insists on it (verify.go:117) – an object without it is
+signed into a document that is always rejected.  (The property quantifies over objects WITH
+camliVersion, so this is not a violation; it is what the guard excludes.) -/
+theorem C16_unversioned_signed_doc_rejected (E : Env S) (unsigned doc : Bytes) (h : E.sign unsigned = .ok doc)
+    (hv : ∃ m, unmarshalMap (trimRightSpace unsigned) = some m ∧ lookup kCamliVersion m = none) :
+    (E.verify doc).err = some .noversion := by
+  obtain ⟨m, s, ref, pk, sk, t, sig, hm, hs, hr, hf, hsk, ht, hsig, hdoc⟩ := sign_inv _ _ _ _ _ _ h
+  obtain ⟨m', hm', hver⟩ := hv
+  rw [hm] at hm'; injection hm' with hm'; subst hm'
+  have hb64 := S.armor_b64 sk t sig hsig
+  have hc : 44 ∉ sig := fun hmem => ne_comma_of_isB64 44 (hb64 44 hmem) rfl
+  have hp : ∀ c ∈ sig, isPlain c = true := fun c hc => isPlain_of_isB64 c (hb64 c hc)
+  have hpm : parsePayloadMap E.tbl (trimRightSpace unsigned) = .error .noversion := by
+    unfold parsePayloadMap
+    rw [hm]; simp [hver]
+  unfold Env.verify Pk.JsonSign.verify
+  rw [hdoc, C16_split_signed t sig hc]
+  simp only [parseSigMap_signedBS sig hp, ht, hpm]
 
 /-! ## soundness -/
 
@@ -265,7 +323,10 @@ def toyPayload : Bytes :=
   [123, 34, 99, 97, 109, 108, 105, 86, 101, 114, 115, 105, 111, 110, 34, 58, 49, 44, 34, 99, 97, 109, 108, 105, 83, 105, 103, 34, 58, 34, 90, 109, 70, 114, 90, 81, 61, 61, 34, 44, 34, 99, 97, 109, 108, 105, 83, 105, 103, 110, 101, 114, 34, 58, 34] ++ toyRef ++ [34]
 /-- the unsigned object: the payload, `}` and trailing white space -/
 def toyUnsigned : Bytes := toyPayload ++ [125, 32, 10]
-def toyLog : List (Nat × Bytes) := [(1, toyPayload)]
+/-- `{"camliSigner":"sha224-a794…42dd"`: no camliVersion -/
+def toyPayloadNoVersion : Bytes :=
+  [123, 34, 99, 97, 109, 108, 105, 83, 105, 103, 110, 101, 114, 34, 58, 34] ++ toyRef ++ [34]
+def toyLog : List (Nat × Bytes) := [(1, toyPayload), (1, toyPayloadNoVersion)]
 /-- `toyPayload ++ ,"camliSig":"QUJDRA===AbCd"}\n` -/
 def toySigned : Bytes := assemble toyPayload toySig
 /-- `toySigned` with `"camliVersion":2` -/
@@ -358,5 +419,13 @@ BP nor the signer, and the document still verifies -/
 example : toyEnv.verify toySpaced = ⟨none, some toyPayload.length, toySig, some toyRef⟩ := by decide +kernel
 /-- a second member in the signature object is refused (verify.go:91) -/
 example : (toyEnv.verify toyTwoKeys).err = some .sigkeys := by decide +kernel
+/-- errors of `Sign` other than the (unreachable) brace error do occur -/
+example : toyEnv.sign [123, 125] = .error .nosigner := by decide +kernel
+/-- hypotheses of C16_unversioned_signed_doc_rejected: an object without camliVersion is signed … -/
+theorem C16_witness_sign_unversioned :
+    toyEnv.sign (toyPayloadNoVersion ++ [125]) = .ok (assemble toyPayloadNoVersion toySig) := by
+  decide +kernel
+/-- … and the result is rejected -/
+example : (toyEnv.verify (assemble toyPayloadNoVersion toySig)).err = some .noversion := by decide +kernel
 
 end Pk.JsonSign
